@@ -1,0 +1,35 @@
+//go:build verif
+
+// Verification hooks for the log-writer client of the `writers` usage pool (build tag
+// `verif` only; add-only: no behaviour of any build depends on this file). They let a
+// forced-schedule harness drive the real Logging.openWriter / Logging.closeLogs glue
+// (key = WriterOpener.WriterKey(), writerKeys bookkeeping, writerDestructor) against
+// the real pool.
+
+package caddy
+
+import "io"
+
+// VerifWritersPool returns the usage pool of open log writers (logging.go).
+func VerifWritersPool() *UsagePool { return writers }
+
+// VerifOpenWriter is Logging.openWriter.
+func (logging *Logging) VerifOpenWriter(opener WriterOpener) (io.WriteCloser, bool, error) {
+	return logging.openWriter(opener)
+}
+
+// VerifCloseLogs is Logging.closeLogs.
+func (logging *Logging) VerifCloseLogs() error { return logging.closeLogs() }
+
+// VerifWriterKeys copies the keys Logging remembers to release in closeLogs.
+func (logging *Logging) VerifWriterKeys() []string {
+	return append([]string(nil), logging.writerKeys...)
+}
+
+// VerifUnwrapWriter returns the writer a pooled log writer wraps.
+func VerifUnwrapWriter(w io.WriteCloser) io.WriteCloser {
+	if wd, ok := w.(writerDestructor); ok {
+		return wd.WriteCloser
+	}
+	return w
+}
